@@ -1,6 +1,7 @@
 """C13 - every Zoned value is internally consistent with its time zone (structure)."""
 from .. import mir
 from ..term import Terms, show, alts, is_call, strip_try, walk
+from ..rules_signpair import run_signpair
 
 ZI = "zoned::ZonedInner"
 
@@ -16,6 +17,9 @@ def field_source(T, op):
 
 def run(ctx, rep):
     prog = ctx.prog("Q")
+    # Eq/Ord/Hash of Zoned compare the (second, nanosecond) pair of the instant field by field (EQ-FIELDS), which is
+    # "depends on the instant only" exactly if every instant has one representation: sign-consistent pairs
+    run_signpair(ctx, rep, select=lambda f: f.file in ("src/timestamp.rs", "src/zoned.rs", "src/shared/util/itime.rs", "src/tz/offset.rs"), floor=8)
     rep.rule("ZONED-CONSTRUCT", "ZonedInner{..} aggregates occur only in Zoned::new and Zoned::from_parts; no store to a field "
                                 "of a ZonedInner anywhere; from_parts is crate-private and called only from DateTime::to_zoned; in "
                                 "Zoned::new the offset is TimeZone::to_offset(tz, ts) and the datetime is Offset::to_datetime(offset, ts) "
